@@ -15,7 +15,7 @@ import (
 // C08 — the server reacts to each frame as its stream's RFC 7540 state prescribes.
 
 type c08Frame struct {
-	K      string `json:"k"`              // H C D R W P PING SET U REL
+	K      string `json:"k"`              // H C D R W P PING SET U REL BULK (40..310 complete requests at once; Code picks how many)
 	Slot   int    `json:"slot"`           // 0..4 existing stream by age, 5 next new id, 6 new id skipping one, 7 lower never-used odd id, 8 even id, 9 stream 0
 	ES     bool   `json:"es,omitempty"`   // END_STREAM
 	EH     bool   `json:"eh,omitempty"`   // END_HEADERS
@@ -212,6 +212,41 @@ func c08Run(c c08Case) Outcome {
 		desc := ""
 		inBlock := blockOpen != 0
 		switch f.K {
+		case "BULK":
+			// open and complete many streams at once, so that the oldest ones fall
+			// out of whatever the server remembers about closed streams
+			if inBlock || c.Gated {
+				continue
+			}
+			n := 40 + int(f.Code%4)*90 // 40..310
+			for k := 0; k < n; k++ {
+				bid := maxOpened + 2
+				if maxOpened == 0 {
+					bid = 1
+				}
+				tag := fmt.Sprintf("t%d", bid)
+				r := simpleReq(tag)
+				h.OpenStream(bid)
+				_ = h.Write(peer.SplitBlock(bid, h.EncodeBlock(nil, r.HeaderList()), nil, true, 0, false, 0, false, 0)[0])
+				bs := &c08Stream{id: bid, state: stHCR, tag: tag, hdrDone: true, esSeen: true}
+				byID[bid] = bs
+				used[bid] = true
+				order = append(order, bs)
+				maxOpened = bid
+				if k%40 == 39 {
+					// stay far below MAX_CONCURRENT_STREAMS: let each batch be answered
+					if ok, d := h.Quiesce(); !ok {
+						return Outcome{Inconcl: "no quiescence inside a bulk of requests: " + d}
+					}
+					h.Replenish()
+				}
+			}
+			if len(order) > 5 {
+				// slots 0..4 now address the oldest streams
+			}
+			al = c08Allowed{none: true}
+			desc = fmt.Sprintf("%d complete requests at once (streams up to %d)", n, maxOpened)
+			h.Replenish()
 		case "REL":
 			if s == nil || !s.running || s.released {
 				continue
@@ -285,6 +320,7 @@ func c08Run(c c08Case) Outcome {
 				al.none = true
 			case st == stClosedServerRST:
 				al = sErr(id, ecStreamClosed)
+				al.conn[ecProtocol] = true // once the id has aged out of what the server remembers it is simply an old id (5.1.1)
 				al.none = true
 			default: // closed(done)
 				al = sErr(id, ecStreamClosed)
@@ -389,6 +425,7 @@ func c08Run(c c08Case) Outcome {
 				al.none = true
 			case st == stClosedServerRST:
 				al = sErr(id, ecStreamClosed)
+				al.conn[ecProtocol] = true
 				al.none = true
 			default:
 				al = sErr(id, ecStreamClosed)
@@ -722,6 +759,9 @@ func c08Gen(t *rapid.T) c08Case {
 	c := c08Case{Gated: rapid.Bool().Draw(t, "gated")}
 	for i := 0; i < n; i++ {
 		f := c08Frame{K: rapid.SampledFrom([]string{"H", "H", "H", "C", "D", "D", "R", "W", "W", "P", "PING", "SET", "U", "REL"}).Draw(t, "k")}
+		if rapid.IntRange(0, 39).Draw(t, "bulk") == 0 {
+			f.K = "BULK"
+		}
 		f.Slot = rapid.SampledFrom([]int{0, 0, 1, 2, 3, 5, 5, 5, 6, 7, 8, 9}).Draw(t, "slot")
 		f.ES = rapid.Bool().Draw(t, "es")
 		f.EH = rapid.IntRange(0, 3).Draw(t, "eh") != 0
